@@ -187,7 +187,7 @@ func ghUnescape(s string, prop bool) (string, error) {
 			b.WriteByte(c)
 			continue
 		}
-		if i+2 >= len(s)+0 && i+2 > len(s)-1 {
+		if i+3 > len(s) {
 			return "", fmt.Errorf("dangling %% escape in %q", s)
 		}
 		code := strings.ToUpper(s[i+1 : i+3])
